@@ -129,3 +129,66 @@ Proof. exact trailing_garbage_rejected. Qed.
 Example C20_ex_wrong_sep_hyps :
   valid_ymd 2014 1 1 = true /\ complete FCalX = true /\ 32 <> 84.
 Proof. repeat split; discriminate. Qed.
+
+(* ------------------------------------------------------------------------------------------------
+   Model <-> source.  coq/gen/IsoGen.v is regenerated from /repo/src/dateutil/parser/isoparser.py by
+   harness/gen_iso.py on every run (fail-closed Python-ast translator); the translated functions are
+   the hand model, for all inputs, so every theorem above is a theorem about the translated source. *)
+From V Require Import iso.IsoGenLib gen.IsoGen iso.IsoGenThm iso.IsoGenCor.
+
+Theorem C20_gen_parse_digits : forall field width, 0 <= width ->
+  gen__parse_digits field width = parse_digits field (Z.to_nat width).
+Proof. exact gen_parse_digits_eq. Qed.
+Print Assumptions C20_gen_parse_digits.
+
+Theorem C20_gen_parse_tzstr_raw : forall t z, gen__parse_tzstr t z = parse_tzstr_raw t z.
+Proof. exact gen_parse_tzstr_raw_eq. Qed.
+Print Assumptions C20_gen_parse_tzstr_raw.
+
+Theorem C20_gen_calculate_weekdate : forall y w d, gen__calculate_weekdate y w d = calculate_weekdate y w d.
+Proof. exact gen_calculate_weekdate_eq. Qed.
+Print Assumptions C20_gen_calculate_weekdate.
+
+Theorem C20_gen_parse_isodate_common : forall s, gen__parse_isodate_common s = pmap (parse_isodate_common s).
+Proof. exact gen_parse_isodate_common_eq. Qed.
+Print Assumptions C20_gen_parse_isodate_common.
+
+Theorem C20_gen_parse_isodate_uncommon : forall s, gen__parse_isodate_uncommon s = pmap (parse_isodate_uncommon s).
+Proof. exact gen_parse_isodate_uncommon_eq. Qed.
+Print Assumptions C20_gen_parse_isodate_uncommon.
+
+Theorem C20_gen_parse_isodate_raw : forall s, gen__parse_isodate s = pmap (parse_isodate_raw s).
+Proof. exact gen_parse_isodate_raw_eq. Qed.
+Print Assumptions C20_gen_parse_isodate_raw.
+
+(* the while loop of _parse_isotime, as recursion on fuel, for any starting state with comp >= -1 *)
+Theorem C20_gen_parse_isotime_loop : forall fuel t pos comp hs h m s us tz, -1 <= comp ->
+  gproj (gen__parse_isotime_loop fuel t (zlen t) h m s us tz (Z.of_nat pos) comp hs) =
+  zmap t (time_loop fuel t pos comp hs (h, m, s) us tz).
+Proof. exact gen_loop_eq. Qed.
+Print Assumptions C20_gen_parse_isotime_loop.
+
+Theorem C20_gen_parse_isotime_raw : forall t, gen__parse_isotime t = parse_isotime_raw t.
+Proof. exact gen_parse_isotime_raw_eq. Qed.
+Print Assumptions C20_gen_parse_isotime_raw.
+
+Theorem C20_gen_isoparse : forall sep s, gen_isoparse (sep_bytes sep) s = isoparse sep s.
+Proof. exact gen_isoparse_eq. Qed.
+Print Assumptions C20_gen_isoparse.
+
+Theorem C20_gen_entry_points : forall s z,
+  gen_parse_isodate s = parse_isodate s /\ gen_parse_isotime s = parse_isotime s /\
+  gen_parse_tzstr s z = parse_tzstr s z.
+Proof. exact (fun s z => conj (gen_parse_isodate_eq s) (conj (gen_parse_isotime_eq s) (gen_parse_tzstr_eq s z))). Qed.
+Print Assumptions C20_gen_entry_points.
+
+(* hence, for the translated source itself: accepted text = recognised text, ValueError otherwise *)
+Theorem C20_gen_isoparse_equiv : forall sep s, gen_isoparse (sep_bytes sep) s = lift (iso_denotes sep s).
+Proof. exact gen_isoparse_equiv. Qed.
+Print Assumptions C20_gen_isoparse_equiv.
+
+Theorem C20_gen_aux_equiv : forall s z,
+  gen_parse_isodate s = lift (date_denotes s) /\ gen_parse_isotime s = lift (time_denotes s) /\
+  gen_parse_tzstr s z = lift (tzstr_denotes z s).
+Proof. exact gen_aux_equiv. Qed.
+Print Assumptions C20_gen_aux_equiv.
